@@ -587,6 +587,11 @@ func (fr *Frame) exec(st *State, g *Term) []retInfo {
 				for _, r := range ownRefs {
 					notOwn += " (not (= fr " + r + "))"
 				}
+				if os.Getenv("GOVC_OLDFRAME") != "" {
+					a0 := sanitize("$alloc") + "@0"
+					c.declare(a0, SInt)
+					allocHead, notOwn = mk(SInt, a0), ""
+				}
 				for _, m := range ms {
 					if strings.HasPrefix(m, "fresh:") {
 						// the loop writes this array only at objects allocated by this function (the store's target is literally an
@@ -603,6 +608,13 @@ func (fr *Frame) exec(st *State, g *Term) []retInfo {
 						pre := c.heapGet(bst, name)
 						nv := c.heapHavoc(bst, name)
 						c.assume(mk(SBool, fmt.Sprintf("(forall ((fr Int)) (! (=> (and (<= fr %s)%s) (= (select %s fr) (select %s fr))) :pattern ((select %s fr))))", allocHead.S, notOwn, nv.S, pre.S, nv.S)))
+						if notOwn != "" {
+							// the special case of objects that existed at function entry, stated separately: it follows from the
+							// line above but spares the solver the chain of frontier inequalities
+							a0 := sanitize("$alloc") + "@0"
+							c.declare(a0, SInt)
+							c.assume(mk(SBool, fmt.Sprintf("(forall ((fr Int)) (! (=> (<= fr %s) (= (select %s fr) (select %s fr))) :pattern ((select %s fr))))", a0, nv.S, pre.S, nv.S)))
+						}
 						continue
 					}
 					if _, ok := c.heapSorts[m]; !ok {
